@@ -104,6 +104,18 @@ func propC02(a *Analysis, r *Registry) {
 					Miss:  S.False(),
 				})
 			}, func() {
+				// the same search from the last rank down
+				b.FirstHitScan(rB, cn, b.pos(fn), fc, loops[0].Header, FirstHit{
+					Base:  T,
+					First: S.MakeFn("len", T).Sub(S.Int(1)),
+					N:     S.MakeFn("len", T),
+					Down:  true,
+					Low:   S.Int(0),
+					Hit:   func(e *RF) *RF { return S.Cmp("<", S.Int(1), S.MakeFn("idx", T, e)) },
+					Val:   func(e *RF) *RF { return S.True() },
+					Miss:  S.False(),
+				})
+			}, func() {
 				// the answer carried in a flag that also stops the scan:
 				// for i := 0; i < len(T) && !tied; i++ { tied = T[i] > 1 }
 				_, guard, _, msg := b.loopGuard(fc, loops[0].Header)
